@@ -6,7 +6,7 @@ class C13(FloorProp):
     profile = 'c13'
     crash_every = 3
     design_ref = 'DESIGN.md section 4 / C13'
-    budgets = {'quick': 8000, 'thorough': 300000}
+    budgets = {'quick': 30000, 'thorough': 600000}
 
 
 PROP = C13()
